@@ -9,7 +9,7 @@ from ..oracle import H, file_bytes, stat_token, walk_files
 RULE = (
     "(a) case = cache holding two generated trees (and single files); workspace = checkout of one of them with link type "
     "copy/hardlink/symlink, then user edits: new files with uncached or cached content, edits to cached<->uncached content, "
-    "deletions, extra directories, file<->directory swaps holding uncached data; then checkout of the same or the other object "
+    "deletions, extra directories, file<->directory swaps holding uncached data, the user's own data kept under two hard-linked / symlinked names, a stray .dvcignore next to the data; then checkout of the same or the other object "
     "with force=False, prompt absent or declining, relink on/off, store class local/base, state on/off.  Accounting: every byte "
     "string present in the workspace before the call and missing/different afterwards (normal return or exception) must be "
     "intact in the cache; an uncached file in the way must produce PromptError.  (b) histories of save_link / modify / "
@@ -24,13 +24,14 @@ ASSUMPTIONS = [
 ]
 MONITORS = ("lost-bytes accounting: {path: bytes} of the workspace before vs after against the set of intact cache objects; audit-hook trail of "
             "removals as witness; shadow model of the link table for clean-up")
-REQUIRED_COUNTERS = ["single_file_targets", "inode_only_replacements", "workspaces_with_dangling_symlink", "cleanups_after_checkout", "large_file_directories", "dir_links_with_duplicate_basenames", "damaged_cache_objects", "symlinked_link_records", "checkouts", "uncached_files_in_workspace", "prompt_errors", "declining_prompt_calls", "normal_returns", "kind_swap_cases",
+REQUIRED_COUNTERS = ["own_data_under_two_linked_names", "workspaces_with_stray_ignore_file", "second_attempts_after_refusal", "single_file_targets", "inode_only_replacements", "workspaces_with_dangling_symlink", "cleanups_after_checkout", "large_file_directories", "dir_links_with_duplicate_basenames", "damaged_cache_objects", "symlinked_link_records", "checkouts", "uncached_files_in_workspace", "prompt_errors", "declining_prompt_calls", "normal_returns", "kind_swap_cases",
                      "link_histories", "unused_link_queries", "remove_links_calls", "relink_cases", "store/local", "store/base",
                      "link/copy", "link/hardlink", "link/symlink"]
 
 
 def run_shard(ctx):
     from dvc_data.hashfile import load
+    from dvc_data.hashfile.build import IgnoreInCollectedDirError
     from dvc_data.hashfile.checkout import CheckoutError, LinkError, PromptError, checkout
 
     res = ctx.res
@@ -110,6 +111,40 @@ def run_shard(ctx):
                         inode_only.append(k)
                 if inode_only:
                     res.count("inode_only_replacements")
+            # the user's own (never cached) data kept under two names inside the workspace: hard-linked (ln, cp -l, de-duplication tools) or
+            # one name a symbolic link to the other
+            if start != "empty" and rng.random() < 0.12:
+                cands = [k for k in sorted(model) if os.path.isfile(os.path.join(ws, *k)) and not os.path.islink(os.path.join(ws, *k))]
+                both = [k for k in cands if k in A and k in B]
+                pick = both if len(both) >= 2 else cands
+                if pick:
+                    ks = rng.sample(pick, min(2, len(pick)))
+                    if len(ks) == 1:
+                        ks.append((*ks[0][:-1], ks[0][-1] + ".userlink"))
+                    own = gen.small_content(rng) + b"user-own-linked"
+                    first, second = os.path.join(ws, *ks[0]), os.path.join(ws, *ks[1])
+                    gen.replace_by_rename(first, own)
+                    if os.path.lexists(second):
+                        os.unlink(second)
+                    style = rng.choice(["hardlink-pair", "hardlink-pair", "symlink-to-own"])
+                    if style == "hardlink-pair":
+                        os.link(first, second)
+                    else:
+                        os.symlink(first, second)
+                    model[ks[0]] = model[ks[1]] = own
+                    ops = [*ops, f"own-data-under-two-names/{style}"]
+                    res.count("own_data_under_two_linked_names")
+            # a stray .dvcignore inside the target directory (next to an edited file when there is one)
+            stray = None
+            if start != "empty" and rng.random() < 0.1:
+                levels = sorted({k[:-1] for k in model if os.path.isdir(os.path.join(ws, *k[:-1]))})
+                if levels:
+                    lv = rng.choice(levels)
+                    stray = os.path.join(ws, *lv, ".dvcignore")
+                    with open(stray, "wb") as f:
+                        f.write(b"*.tmp\n")
+                    model[(*lv, ".dvcignore")] = b"*.tmp\n"
+                    res.count("workspaces_with_stray_ignore_file")
             # a dangling symbolic link lying around in the workspace
             dangling = False
             if start != "empty" and rng.random() < 0.08:
@@ -165,6 +200,11 @@ def run_shard(ctx):
                     res.count("prompt_errors")
                 except (CheckoutError, LinkError) as e:
                     outcome = type(e).__name__
+                except IgnoreInCollectedDirError as e:
+                    if stray is None:
+                        raise
+                    outcome = type(e).__name__  # loud refusal
+                    res.count("refused_because_of_stray_ignore_file")
                 except OSError as e:
                     if not dangling:
                         raise
@@ -196,8 +236,28 @@ def run_shard(ctx):
                 named = [k for k in uncached if k[: len(key)] == key]
                 if not named:
                     res.violation("prompt-error-names-recoverable-path", f"PromptError for {p}, which holds no uncached data", case=case, detail=cfg)
+            if not lost and outcome != "returned" and not dangling and rng.random() < 0.5:
+                # the refused / failed checkout is simply tried again (a stray ignore file removed first): still nothing unrecoverable may go
+                if stray is not None and os.path.exists(stray):
+                    os.unlink(stray)
+                mid0 = walk_files(ws)
+                res.count("second_attempts_after_refusal")
+                out2 = "returned"
+                try:
+                    checkout(ws, fs, target, odb, force=False, relink=relink, state=state, prompt=prompt if prompt_mode == "decline" else None)
+                except (PromptError, CheckoutError, LinkError) as e:
+                    out2 = type(e).__name__
+                aft2 = walk_files(ws)
+                for k, v in mid0.items():
+                    if v is not None and aft2.get(k) != v and H("md5", v) not in intact:
+                        res.violation(f"uncached-user-file-destroyed-by-second-attempt/after-{outcome}",
+                                      f"{'/'.join(k)} holds bytes that are not in the cache; the checkout was refused ({outcome}) and a second non-forced attempt ({out2}) destroyed it",
+                                      case=case, detail=cfg)
+                        lost = [k]
+                        break
             # "modified since recorded" in the sense the clean-up can see: the set of files or one of their mtimes changed
-            edited = start != "empty" and os.path.isdir(ws) and recorded_view != {} and pre_view != recorded_view
+            # (judged on the view the clean-up will actually see: a stray file removed for the second attempt no longer counts)
+            edited = start != "empty" and os.path.isdir(ws) and recorded_view != {} and pre_view != recorded_view and mtimes_of(ws) != recorded_view
             if state is not None and not lost and outcome != "returned" and edited and not dangling and rng.random() < 0.8:
                 # the checkout was refused / failed: it must not have recorded the user's edited workspace as its own link
                 res.count("cleanups_after_checkout")
